@@ -111,8 +111,23 @@ impl Digest {
         ensures r@ == self.view()
     { unimplemented!() }
 }
-pub struct Sha256;
+/// orion's Sha256: one-shot `digest`, and the streaming state (new / update / finalize) with the bytes absorbed so far as ghost view
+pub struct Sha256 { pub absorbed: Ghost<Seq<u8>> }
 impl Sha256 {
+    pub open spec fn view(&self) -> Seq<u8> { self.absorbed@ }
+    #[verifier::external_body]
+    pub fn new() -> (r: Sha256)
+        ensures r@ == Seq::<u8>::empty()
+    { unimplemented!() }
+    /// Err only when more than 2^61 bytes are hashed in total, or after finalize without reset (not modelled: Ok assumed for slices)
+    #[verifier::external_body]
+    pub fn update(&mut self, data: &[u8]) -> (r: Result<(), UnknownCryptoError>)
+        ensures r is Ok, final(self)@ == old(self)@ + data@
+    { unimplemented!() }
+    #[verifier::external_body]
+    pub fn finalize(&mut self) -> (r: Result<Digest, UnknownCryptoError>)
+        ensures r is Ok, r matches Ok(d) ==> d.view() == spec_sha256(old(self)@)
+    { unimplemented!() }
     /// orion: Err only when more than 2^61 bytes are hashed, which a slice cannot hold on the 64-bit targets
     #[verifier::external_body]
     pub fn digest(data: &[u8]) -> (r: Result<Digest, UnknownCryptoError>)
